@@ -619,7 +619,11 @@ def run(project: Project, rep, tier: str):
     check_order(rep, run)
     check_empty(rep, project, BN)
     for ev in run.events("shape-error"):
-        rep.refuted("BN-TILE", fi, ev["node"], f"shape mismatch for some sizes: {ev['message']}")
+        if run.interp.clean_before(ev):
+            rep.refuted("BN-TILE", fi, ev["node"], f"shape mismatch for some sizes: {ev['message']}")
+        else:
+            rep.unmodelled("BN-TILE", fi, ev["node"], f"a shape mismatch is reported after values the run could not model: "
+                                                     f"{ev['message']}"[:200])
     rep.floor("BN-COST", 5)
     rep.floor("BN-TILE", 7)
     rep.floor("BN-GRAPH", 1)
